@@ -166,6 +166,19 @@ def call(c):
         return float(cpl.joint_shannon_entropy(c["x"], c["y"]))
     if k == "MI":
         return float(cpl.mutual_information(c["x"], c["y"]))
+    if k in ("ace", "ami") and (len(c["ca"]) + len(c["ca"][0])) % 3 == 0:
+        # a different automaton of the same shape and dtype was measured just before, from a temporary that is gone by the
+        # time the measured one is allocated (time windows of one evolution in a loop, arrays generated for the call)
+        base = make_ca(c)
+        measure = cpl.average_cell_entropy if k == "ace" else (lambda a: cpl.average_mutual_information(a, c["d"]))
+        try:
+            ghost = base.copy()
+            ghost[1:] = ghost[0]          # every cell constant: all measures 0 (a reversed or permuted copy would measure the same)
+            measure(ghost)
+            del ghost
+        except Exception:  # noqa
+            pass
+        return float(measure(base.copy()))
     if k == "ace":
         return float(cpl.average_cell_entropy(make_ca(c)))
     return float(cpl.average_mutual_information(make_ca(c), c["d"]))
